@@ -24,6 +24,8 @@ def py_index(ixj, ax, as_array=False):
                 for i, v in enumerate(vals):
                     arr[i] = v
                 return arr
+            if kind == "i" and any(isinstance(v, float) for v in vals):
+                return np.array(vals, dtype=np.float64)          # never truncate a non-integral request
             return np.array(vals, dtype={"i": np.int64, "f": np.float64}[kind])
         return vals
     if t == "ma":
@@ -225,7 +227,7 @@ class C01(Prop):
         if r < 0.22 and n > 0:
             return ["sc", rng.choice(ax["labels"])], "scalar"
         if r < 0.30:
-            return ["sc", gen.absent_label(rng, ax)], "absent_scalar"
+            return ["sc", gen.absent_label(rng, ax, frac=True)], "absent_scalar"
         if r < 0.55:
             k = rng.randint(0, 4)
             vs = [rng.choice(ax["labels"]) for _ in range(k)] if n > 0 else []
@@ -233,7 +235,7 @@ class C01(Prop):
         if r < 0.63:
             k = rng.randint(1, 3)
             vs = [rng.choice(ax["labels"]) for _ in range(k)] if n > 0 else []
-            vs.insert(rng.randint(0, len(vs)), gen.absent_label(rng, ax))
+            vs.insert(rng.randint(0, len(vs)), gen.absent_label(rng, ax, frac=True))
             return ["li", vs], "list_absent"
         if r < 0.78:
             return ["ma", [rng.random() < 0.5 for _ in range(n)]], "mask"
